@@ -242,6 +242,11 @@ def run(ctx):
     for _ in range(ctx.scale(8000, 500_000)):
         r = recipes.gen_response(rng, files, allow_raise=True)
         hdrs = file_requests(rng) if r["cls"] == "File" else []
+        if rng.random() < 0.3:
+            # ordinary request headers a response might echo or look at
+            hdrs = hdrs + rng.sample([("X-Request-ID", "req-7f3a"), ("Accept", "text/html, */*;q=0.8"), ("Accept-Encoding", "gzip, br"), ("Connection", "keep-alive"),
+                                      ("Origin", "https://example.org"), ("X-Forwarded-For", "10.0.0.1"), ("Cookie", "a=1"), ("User-Agent", "verif/1.0"),
+                                      ("Cache-Control", "no-cache"), ("TE", "trailers")], rng.randrange(1, 4))
         todo.append((r, rng.choice(["GET", "GET", "HEAD"]), hdrs))
     for i, (r, method, hdrs) in enumerate(todo):
         run_wsgi_case(ctx, r, method, hdrs, edges)
